@@ -19,6 +19,18 @@ let planner_s = function 0 -> "default" | 1 -> "weight2" | 2 -> "recursive" | 3 
 (* decision class: 0 allowed, 1 denied, 2 error *)
 let dclass = function 0 -> 0 | 1 | 2 -> 1 | _ -> 2
 
+(* Cross-check of extraction: with ORACLE_DUMP=<file> the values the EXTRACTED strategy models compute
+   for the direct-feed cases (kinds 2, 3, 4, 6) are appended to that file, one line per case, before
+   any comparison with the implementation; bin/coqreplay_c02.py recomputes them inside Coq. *)
+let dump_chan = match Sys.getenv_opt "ORACLE_DUMP" with
+  | Some p when p <> "" -> Some (open_out_gen [Open_append; Open_creat] 0o644 p)
+  | _ -> None
+let dump id (nums : int list) =
+  match dump_chan with
+  | Some ch -> output_string ch (id ^ " " ^ String.concat " " (List.map string_of_int nums) ^ "\n")
+  | None -> ()
+let alt_sched = [false; true; false; true; false; true; false; true; false; true; false; true]
+
 let ints v = List.map as_int (as_list v)
 let nl l = List.map n_of_int l
 let il l = List.map int_of_n l
@@ -150,10 +162,11 @@ let kind1 model conds tuples atoms maxdepth subjects =
 
 (* ---- kind 2 ---- *)
 let bres_impl = function BTrue -> 0 | BFalse -> 1 | BErr -> 3 | BDepth -> 4 | BFuel -> 99
-let kind2 edges direct start depth outs =
+let kind2 id edges direct start depth outs =
   let es = List.map (fun e -> match ints e with [a; b] -> (n_of_int a, n_of_int b) | _ -> failwith "edge") (as_list edges) in
   let r = rec_check es (nl (ints direct)) (nat_of_int (as_int depth)) (n_of_int (as_int start)) in
   let exp = bres_impl r in
+  dump id [2; exp];
   let outs = ints outs in
   if exp = 99 then "DIFF BFS model out of fuel"
   else if outs = [exp] then "OK"
@@ -166,7 +179,7 @@ let dec_chunk v =
   | 1 :: l -> Ch (nl l, true)
   | [2] -> ChErr
   | _ -> failwith "chunk"
-let kind3 op streams vals failed =
+let kind3 id op streams vals failed =
   let css = List.map (fun s -> List.map dec_chunk (as_list s)) (as_list streams) in
   let r = match as_int op, css with
     | 0, _ -> fp_union_c css
@@ -174,6 +187,10 @@ let kind3 op streams vals failed =
     | _, [a; b] -> fp_diff_c a b
     | _ -> failwith "difference needs two streams" in
   let vals = ints vals and failed = as_int failed in
+  (match r with
+   | FPDone l -> dump id (3 :: 0 :: List.length l :: il l)
+   | FPFail l -> dump id (3 :: 1 :: List.length l :: il l)
+   | FPFuel -> dump id [3; 2; 0]);
   match r with
   | FPFuel -> if failed = 2 then "OK" else "DIFF model does not terminate, implementation does"
   | FPDone l -> if failed = 0 && il l = vals then "OK"
@@ -195,12 +212,13 @@ let rec interleavings (chs : 'a list list) : 'a list list =
       | [] -> []) chs)
 let rec schedules n = if n = 0 then [[]] else List.concat_map (fun s -> [true :: s; false :: s]) (schedules (n - 1))
 let w2_out = function None -> 99 | Some r -> if r.w_err then 2 else if r.w_allowed then 0 else 1
-let kind4 left right outs =
+let kind4 id left right outs =
   let chans = List.map (fun c -> List.map dec_lmsg (as_list c)) (as_list left) in
   let right = List.map (fun x -> if x = 0 then RErr else RVal (n_of_int (x - 1))) (ints right) in
   let outs = ints outs in
   let clean = List.for_all (fun c -> left_ok c) chans && right_ok right in
   let nmsgs = List.fold_left (fun a c -> a + List.length c) 0 chans in
+  dump id [4; w2_out (weight2 [] (List.concat chans) right); w2_out (weight2 alt_sched (List.concat chans) right)];
   let possible =
     if clean then [w2_out (weight2 [] (List.concat chans) right)]
     else begin
@@ -321,9 +339,10 @@ let kind5 model conds tuples atoms maxdepth subjects =
   end
 
 (* ---- kind 6 ---- *)
-let kind6 ctxt stored objs failed =
+let kind6 id ctxt stored objs failed =
   let dec l = List.map (fun p -> match ints p with [o; c] -> (n_of_int o, n_of_int c) | _ -> failwith "stup") (as_list l) in
   let (mo, me) = source_impl (dec ctxt) (dec stored) in
+  dump id (6 :: (if me then 1 else 0) :: List.length mo :: il mo);
   let objs = ints objs and failed = as_int failed <> 0 in
   if il mo = objs && me = failed then "OK"
   else Printf.sprintf "DIFF sorted producer impl=%s failed=%b model=%s failed=%b" (show objs) failed (show (il mo)) me
@@ -331,11 +350,11 @@ let kind6 ctxt stored objs failed =
 let f _id vs =
   match vs with
   | [I "1"; model; conds; tuples; atoms; maxdepth; subjects] -> kind1 model conds tuples atoms maxdepth subjects
-  | [I "2"; _n; edges; direct; start; depth; outs] -> kind2 edges direct start depth outs
-  | [I "3"; op; streams; vals; failed] -> kind3 op streams vals failed
-  | [I "4"; left; right; outs] -> kind4 left right outs
-  | [I "6"; ctxt; stored; objs; failed] -> kind6 ctxt stored objs failed
+  | [I "2"; _n; edges; direct; start; depth; outs] -> kind2 _id edges direct start depth outs
+  | [I "3"; op; streams; vals; failed] -> kind3 _id op streams vals failed
+  | [I "4"; left; right; outs] -> kind4 _id left right outs
+  | [I "6"; ctxt; stored; objs; failed] -> kind6 _id ctxt stored objs failed
   | [I "5"; model; conds; tuples; atoms; maxdepth; subjects] -> kind5 model conds tuples atoms maxdepth subjects
   | _ -> "DIFF malformed-record"
 
-let () = run_oracle f
+let () = run_oracle f; (match dump_chan with Some ch -> close_out ch | None -> ())
